@@ -339,7 +339,7 @@ theorem mem_swapAt (parent : Path) (a b : String) (q : Path) (c : String) (hc : 
 theorem namesOK_renameSpace (kw : List String) (st st' : St) (h : Inv st) (hn : NamesOK kw st) (p : Path)
     (new : String) (hop : st.renameSpace kw p new = .ok st') : NamesOK kw st' := by
   obtain ⟨parent, old, rfl, hpid, hv, _, rfl, _⟩ := renameSpace_ok kw st st' h.wf _ new hop
-  refine ⟨?_, ?_, ?_⟩
+  refine ⟨?_, ?_⟩
   · intro q' hq' c hc
     obtain ⟨q, hq, rfl⟩ := (mem_ids_mapPaths (swapAt parent old new) st q').mp hq'
     rcases mem_swapAt parent old new q c hc with e | e | e
@@ -353,7 +353,6 @@ theorem namesOK_renameSpace (kw : List String) (st st' : St) (h : Inv st) (hn : 
     have hd' : ((st.mapPaths (swapAt parent old new)).defd a q' n).isSome = true := hd
     rw [this] at hd'
     exact hn.defs a _ n hd'
-  · exact hn.globals
 
 /-! ## derivation from scratch commutes with the renaming -/
 
